@@ -36,8 +36,21 @@ def exact_kdim(A, v):
 def gen_problem(rng, hermitian, maxn=8):
     """integer (Gaussian-integer) matrix and start vector; families: generic, degenerate, block (invariant subspace), scalar"""
     n = int(rng.integers(1, maxn + 1))
-    fam = str(rng.choice(['generic', 'generic', 'degenerate', 'block', 'scalar', 'ladder', 'projector']))
+    fam = str(rng.choice(['generic', 'generic', 'degenerate', 'block', 'scalar', 'ladder', 'projector', 'near_eig']))
     cplx = bool(rng.integers(2))
+    if fam == 'near_eig' and n >= 2:
+        # start vector close to an eigenvector inside a small invariant subspace: the first off-diagonal coefficient is tiny, the
+        # Krylov space is exhausted after k steps, and the rounding-level residual at that point is amplified (finding F6)
+        k = int(rng.integers(2, min(4, n) + 1))
+        lam = rng.choice(np.arange(-6, 7), size=n, replace=False).astype(float)
+        A = np.diag(lam)
+        if not hermitian:
+            A = A + np.triu(rng.integers(-1, 2, size=(n, n)), 1) * (np.arange(n)[:, None] < k) * (np.arange(n)[None, :] < k)
+        v = np.zeros(n)
+        v[:k] = rng.integers(1, 4, size=k)
+        v[0] *= 10 ** int(rng.integers(2, 7))
+        p = rng.permutation(n)
+        return A[np.ix_(p, p)], v[p], fam, 'near_eig'
 
     def rand_mat(k):
         M = rng.integers(-3, 4, size=(k, k)).astype(complex if cplx else float)
@@ -97,6 +110,16 @@ def _ambiguous(offdiag):
     return bool(np.any((a > 0) & (a < 1e-6)))
 
 
+def _ortho_tol(offdiag, kk, nA):
+    """orthogonality bound of a Gram-Schmidt / three-term recurrence without re-orthogonalization: rounding errors of size
+    eps ||A|| are divided by the smallest off-diagonal coefficient met so far (a start vector close to an eigenvector gives a
+    tiny first coefficient); 1e-10 for well-conditioned runs"""
+    a = np.abs(np.asarray(offdiag, dtype=float))[:max(kk - 1, 0)]
+    a = a[np.isfinite(a) & (a > 0)]
+    amp = 1e3 * np.finfo(float).eps * nA / float(np.min(a)) if a.size else 0.0
+    return 1e-10 * max(1, kk) + amp
+
+
 def record_lanczos(ptn, A, v, m):
     n = len(v)
     kdim = exact_kdim(A, v)
@@ -114,8 +137,8 @@ def record_lanczos(ptn, A, v, m):
         Vl = V[:, :kk]
         rec.update(k=int(k), warned=bool(any(issubclass(w.category, RuntimeWarning) for w in wl)), sizes_consistent=sizes,
                    ambiguous=_ambiguous(beta),
-                   ortho_ok=bool(sizes and np.linalg.norm(Vl.conj().T @ Vl - np.eye(kk)) <= 1e-10 * max(1, kk)),
-                   proj_ok=bool(sizes and np.linalg.norm(Vl.conj().T @ A @ Vl - T[:kk, :kk]) <= 1e-9 * nA),
+                   ortho_ok=bool(sizes and np.linalg.norm(Vl.conj().T @ Vl - np.eye(kk)) <= _ortho_tol(beta, kk, nA)),
+                   proj_ok=bool(sizes and np.linalg.norm(Vl.conj().T @ A @ Vl - T[:kk, :kk]) <= 1e-9 * nA + 10 * nA * _ortho_tol(beta, kk, nA)),
                    alpha_real=bool(np.isrealobj(alpha) and np.isrealobj(beta)),
                    beta_pos=bool(np.all(np.asarray(beta)[:kk - 1] > 0)), hess_ok=True)
     except BaseException as ex:  # noqa
@@ -138,8 +161,8 @@ def record_arnoldi(ptn, A, v, m):
         Vl = V[:, :kk]
         rec.update(k=int(k), warned=bool(any(issubclass(w.category, RuntimeWarning) for w in wl)), sizes_consistent=sizes,
                    ambiguous=_ambiguous(np.diag(H, -1)) or not np.all(np.isfinite(H)),
-                   ortho_ok=bool(sizes and np.all(np.isfinite(V)) and np.linalg.norm(Vl.conj().T @ Vl - np.eye(kk)) <= 1e-10 * max(1, kk)),
-                   proj_ok=bool(sizes and np.all(np.isfinite(H)) and np.linalg.norm(Vl.conj().T @ A @ Vl - H[:kk, :kk]) <= 1e-9 * nA),
+                   ortho_ok=bool(sizes and np.all(np.isfinite(V)) and np.linalg.norm(Vl.conj().T @ Vl - np.eye(kk)) <= _ortho_tol(np.diag(H, -1), kk, nA)),
+                   proj_ok=bool(sizes and np.all(np.isfinite(H)) and np.linalg.norm(Vl.conj().T @ A @ Vl - H[:kk, :kk]) <= 1e-9 * nA + 10 * nA * _ortho_tol(np.diag(H, -1), kk, nA)),
                    hess_ok=bool(sizes and np.allclose(np.tril(H, -2), 0)), alpha_real=True, beta_pos=True)
         if not np.all(np.isfinite(H)) or not np.all(np.isfinite(V)):
             rec['ambiguous'] = False
